@@ -538,8 +538,8 @@ func step(s *side, bkt string, o op) ([]*s3c.Resp, error) {
 	case "ownget":
 		return one(cl.Call("GET", "/"+bkt, s3c.Q("ownershipControls", ""), nil, nil))
 	case "aclput":
-		h := [][]s3c.KV{{{K: "x-amz-acl", V: "public-read"}}, {{K: "x-amz-acl", V: "private"}}, {{K: "x-amz-grant-read", V: "id=" + users[0].Access}}, {{K: "x-amz-grant-full-control", V: "id=" + users[0].Access}, {K: "x-amz-grant-read", V: "id=" + users[1].Access}},
-			{{K: "x-amz-acl", V: "public-read-write"}}, {{K: "x-amz-grant-write", V: "id=" + users[0].Access}, {K: "x-amz-grant-read-acp", V: "id=" + users[1].Access}, {K: "x-amz-grant-write-acp", V: "id=" + users[1].Access}}}
+		h := [][]s3c.KV{{{K: "x-amz-acl", V: "public-read"}}, {{K: "x-amz-acl", V: "private"}}, {{K: "x-amz-grant-read", V: users[0].Access}}, {{K: "x-amz-grant-full-control", V: users[0].Access}, {K: "x-amz-grant-read", V: users[1].Access}},
+			{{K: "x-amz-acl", V: "public-read-write"}}, {{K: "x-amz-grant-write", V: users[0].Access}, {K: "x-amz-grant-read-acp", V: users[1].Access}, {K: "x-amz-grant-write-acp", V: users[1].Access}}}
 		return one(cl.Call("PUT", "/"+bkt, s3c.Q("acl", ""), h[o.Meta%len(h)], nil))
 	case "aclget":
 		return one(cl.Call("GET", "/"+bkt, s3c.Q("acl", ""), nil, nil))
